@@ -120,7 +120,7 @@ def apply_contract(interp, c, func, args, kwargs):
         if c.modifies and ens is not None:
             # the frame was havocked: what the exceptional postcondition says about it is all that is known
             envx = _clause_env(bound, ghosts, {'exc': exc, 'old': old, 'trace': st.trace, 'ghost': st.ghost})
-            st.assume(interp.truth(_call_pred(interp, ens, envx)))
+            st.assume(interp.truth(_call_pred(interp, ens, envx, assumed=True)))
         raise PyRaise(exc)
 
     # exceptional outcomes
@@ -145,7 +145,7 @@ def apply_contract(interp, c, func, args, kwargs):
         if isinstance(clause, tuple):       # (clause, 'effect') : executed for its effect on ghost state
             _call_pred(interp, clause[0], env2)
             continue
-        st.assume(interp.truth(_call_pred(interp, clause, env2)))
+        st.assume(interp.truth(_call_pred(interp, clause, env2, assumed=True)))
     return result
 
 
@@ -374,7 +374,7 @@ def _run_path(interp, reg, c, func, rep):
             reg.ghost_env.update(extra)
     env = _clause_env(args, ghosts, {'trace': st.trace, 'ghost': st.ghost})
     if c.requires is not None:
-        st.assume(interp.truth(_call_pred(interp, c.requires, env)))
+        st.assume(interp.truth(_call_pred(interp, c.requires, env, assumed=True)))
     if st.check() == z3.unsat:
         raise PathAbort()
     old = None
@@ -442,7 +442,7 @@ def _run_path(interp, reg, c, func, rep):
         exc = outcome[1]
         matched = False
         for exc_cls, spec in c.raises.items():
-            if isinstance(exc_cls, type) and isinstance(exc, exc_cls):
+            if _exc_is(exc, exc_cls):
                 matched = True
                 env2 = _clause_env(args, ghosts, {'exc': exc, 'old': old, 'trace': st.trace, 'ghost': st.ghost})
                 when = spec.get('when')
@@ -461,7 +461,7 @@ def _run_path(interp, reg, c, func, rep):
                 break
         if not matched:
             for exc_cls in c.may_raise:
-                if isinstance(exc, exc_cls):
+                if _exc_is(exc, exc_cls):
                     matched = True
         if not matched:
             allowed = c.raises_only
@@ -494,7 +494,20 @@ def _shape_of_ty(ty):
     return ('obj',)
 
 
+def _exc_is(exc, exc_cls):
+    """does the exception belong to the declared outcome?  A class, or Iface(I): an opaque exception object
+    of interface I (an exception of the environment whose class is not fixed)."""
+    from .api import Iface
+    from .values import Opaque
+    if isinstance(exc_cls, Iface):
+        return isinstance(exc, Opaque) and exc._pv_iface is exc_cls.iface
+    return isinstance(exc_cls, type) and isinstance(exc, exc_cls)
+
+
 def _exc_name(e):
+    from .api import Iface
+    if isinstance(e, Iface):
+        return 'opaque:' + e.iface.__name__
     return getattr(e, '__name__', repr(e))
 
 
